@@ -45,15 +45,19 @@ pub struct Peer {
     /// the next APDU fails with BrokenPipe
     pub fail_writes_after: Option<usize>,
     pub failed_writes: usize,
+    /// a poll_write accepts at most this many bytes (short writes, as a socket with a nearly full send buffer); None = all
+    pub write_limit: Option<usize>,
+    /// where the script is exhausted / the stream ends, poll_read fails with this error kind instead of reporting end of file
+    pub end_error: Option<io::ErrorKind>,
 }
 
 impl Peer {
     pub fn scripted(script: Vec<Vec<u8>>, trailing: Vec<u8>, chunks: Vec<usize>) -> Self {
-        Peer { script, trailing, next: 0, inbox: vec![], cur: 0, outbuf: vec![], log: vec![], chunks, chunk_i: 0, pending_toggle: false, client_apdus: vec![], gated: true, eof_after: None, reads_after_eof: 0, fail_writes_after: None, failed_writes: 0 }
+        Peer { script, trailing, next: 0, inbox: vec![], cur: 0, outbuf: vec![], log: vec![], chunks, chunk_i: 0, pending_toggle: false, client_apdus: vec![], gated: true, eof_after: None, reads_after_eof: 0, fail_writes_after: None, failed_writes: 0, write_limit: None, end_error: None }
     }
     /// transport level: all `data` is readable at once, optionally ending after `eof_after` bytes
     pub fn preloaded(data: Vec<u8>, chunks: Vec<usize>, eof_after: Option<usize>) -> Self {
-        Peer { script: vec![], trailing: vec![], next: 0, inbox: data, cur: 0, outbuf: vec![], log: vec![], chunks, chunk_i: 0, pending_toggle: false, client_apdus: vec![], gated: false, eof_after, reads_after_eof: 0, fail_writes_after: None, failed_writes: 0 }
+        Peer { script: vec![], trailing: vec![], next: 0, inbox: data, cur: 0, outbuf: vec![], log: vec![], chunks, chunk_i: 0, pending_toggle: false, client_apdus: vec![], gated: false, eof_after, reads_after_eof: 0, fail_writes_after: None, failed_writes: 0, write_limit: None, end_error: None }
     }
     fn release(&mut self) {
         if self.next < self.script.len() {
@@ -116,6 +120,10 @@ impl AsyncWrite for Peer {
                 return Poll::Ready(Err(io::Error::new(io::ErrorKind::BrokenPipe, "connection closed by the terminal")));
             }
         }
+        let buf = match self.write_limit {
+            Some(k) => &buf[..buf.len().min(k.max(1))],
+            None => buf,
+        };
         self.log.push(Ev::Write(buf.to_vec()));
         self.outbuf.extend_from_slice(buf);
         let n = self.complete_apdus();
@@ -154,6 +162,9 @@ impl AsyncRead for Peer {
             if self.reads_after_eof <= 8 {
                 self.log.push(Ev::ReadNoData);
                 self.log.push(Ev::Eof);
+            }
+            if let Some(kind) = self.end_error {
+                return Poll::Ready(Err(io::Error::new(kind, "connection lost")));
             }
             return Poll::Ready(Ok(()));
         }
